@@ -59,6 +59,8 @@ AlphaSeq ==
       [] Family = "macros" -> <<"M1{", "M2{", "}", "AP1a", "AP1n", "AP1k", "AP2na", "AP1_", "APx", "DBp", "DLp", "DBa", "SPp", "La", "A5">>
       [] Family = "ctl"    -> <<"IF1{", "IF0{", "IFc{", "IFu{", "IFm{", "}E{", "}", "FOR02{", "FOR13{", "FOR20{", "FOR0c{", "DB", "DBi", "La", "DLa", "C3">>
       [] Family = "capture" -> <<"A5", "M2{", "}", "DBa", "DBp", "AP2na", "AP2ab", "La", "Lb">>
+      [] Family = "splice" -> <<"M1{", "}", "{", "N{", "FOR02{", "IF1{", "SPp", "AP1k", "DB">>
+      [] Family = "shadowram" -> <<"Lc", "LDc", "C10", "{", "}", "A2", "A1", "La">>
       [] Family = "tiny"   -> <<"La", "DB", "DLa", "{", "}", "S3">>
 Alphabet == Range(AlphaSeq)
 TokIndex(t) == CHOOSE j \in 1..Len(AlphaSeq) : AlphaSeq[j] = t
